@@ -146,6 +146,107 @@ MUTANTS = [
 ]
 
 
+# Negative controls: edits that change how the library is written (number and extent of critical sections, an
+# equivalent comparison) but not what it does. The owning check must stay quiet (exit 0): an alarm here is a false alarm
+# of the machinery. Each entry: id, property, list of (file, old, new).
+EQUIVALENTS = [
+    ('E01', 'C12', [(M, """    void decommission()
+    {
+      auto lock = get_lock();""", """    void decommission()
+    {"""), (M, """    ~expectations() {
+      active.decommission();
+      saturated.decommission();
+    }
+    call_matcher_list<Sig> active{};
+    call_matcher_list<Sig> saturated{};
+  };
+
+  template <typename Sig>
+  struct expectations<false, Sig>""", """    ~expectations() {
+      auto lock = get_lock();
+      active.decommission();
+      saturated.decommission();
+    }
+    call_matcher_list<Sig> active{};
+    call_matcher_list<Sig> saturated{};
+  };
+
+  template <typename Sig>
+  struct expectations<false, Sig>"""), (M, """        "https://github.com/rollbear/trompeloeil/blob/master/docs/reference.md#movable_mock");
+    }
+    ~expectations() {
+      active.decommission();""", """        "https://github.com/rollbear/trompeloeil/blob/master/docs/reference.md#movable_mock");
+    }
+    ~expectations() {
+      auto lock = get_lock();
+      active.decommission();""")]),
+    ('E02', 'C12', [(M, """      auto lock = get_lock();
+      return sequences->is_satisfied();""", """      { auto warm_up = get_lock(); }
+      auto lock = get_lock();
+      return sequences->is_satisfied();""")]),
+    ('E03', 'C12', [(S, """    {
+      auto lock = get_lock();
+      seq->add_last(this);""", """    {
+      seq->add_last(this);"""), (M, """      using handler = sequence_handler<sizeof...(T)>;
+      auto seq = detail::make_unique<handler>(*sequences,
+                                              name,""", """      using handler = sequence_handler<sizeof...(T)>;
+      auto lock = get_lock();
+      auto seq = detail::make_unique<handler>(*sequences,
+                                              name,"""), (L, """    using handler = sequence_handler<sizeof...(T)>;
+    auto seq = detail::make_unique<handler>(*sequences,
+                                            invocation_name,""", """    using handler = sequence_handler<sizeof...(T)>;
+    auto lock = get_lock();
+    auto seq = detail::make_unique<handler>(*sequences,
+                                            invocation_name,""")]),
+    ('E04', 'C03', [(M, 'return call_count == max_calls;', 'return call_count >= max_calls;')]),
+    ('E05', 'C12', [(M, """      auto lock = get_lock();
+      if (is_unfulfilled())
+      {
+        report_missed("Unfulfilled expectation");
+      }
+      this->unlink();""", """      auto lock = get_lock();
+      auto again = get_lock();
+      if (is_unfulfilled())
+      {
+        report_missed("Unfulfilled expectation");
+      }
+      this->unlink();""")]),
+]
+
+
+def run_equivalents(want, repo):
+    results = []
+    for eid, prop, edits in EQUIVALENTS:
+        if want and eid not in want:
+            continue
+        scratch = tempfile.mkdtemp(prefix='mutant-%s-' % eid, dir='/tmp')
+        try:
+            shutil.copytree(os.path.join(repo, 'include'), os.path.join(scratch, 'include'))
+            bad = None
+            for rel, old, new in edits:
+                path = os.path.join(scratch, rel)
+                src = open(path).read()
+                if src.count(old) != 1:
+                    bad = 'SKIP: pattern occurs %d times in %s' % (src.count(old), rel)
+                    break
+                open(path, 'w').write(src.replace(old, new))
+            if bad:
+                results.append((eid, prop, bad))
+                print(*results[-1], flush=True)
+                continue
+            env = dict(os.environ, VERIF_REPO=scratch, VERIF_BUILD=os.path.join(scratch, 'build'), VERIF_EVIDENCE_DIR=os.path.join(scratch, 'evidence'))
+            t0 = time.time()
+            p = subprocess.run([sys.executable, os.path.join(ROOT, 'tools', 'check.py'), '--property', prop, '--tier', 'quick', '--budget', '25'], env=env, stdout=subprocess.PIPE, stderr=subprocess.PIPE, text=True)
+            viol = [l for l in p.stdout.splitlines() if l.startswith('VIOLATION')]
+            detail = [l for l in p.stderr.splitlines() if l.startswith('violation:') or l.startswith('HARNESS')]
+            ok = p.returncode == 0 and not viol
+            results.append((eid, prop, ('QUIET' if ok else 'FALSE-ALARM rc=%d' % p.returncode) + ' %.0fs %s' % (time.time() - t0, (detail[0][:200] if detail else ''))))
+        finally:
+            shutil.rmtree(scratch, ignore_errors=True)
+        print(*results[-1], flush=True)
+    return results
+
+
 def main():
     want = set(sys.argv[1:])
     repo = os.environ.get('VERIF_REPO_SRC', '/repo')
@@ -174,7 +275,10 @@ def main():
         print(*results[-1], flush=True)
     missed = [r for r in results if not r[2].startswith('DETECTED')]
     print('mutant self-test: %d mutants, %d detected, %d not' % (len(results), len(results) - len(missed), len(missed)))
-    return 1 if missed else 0
+    eq = run_equivalents(want, repo)
+    loud = [r for r in eq if not r[2].startswith('QUIET')]
+    print('negative controls: %d behaviour-preserving edits, %d left the check quiet, %d did not' % (len(eq), len(eq) - len(loud), len(loud)))
+    return 1 if missed or loud else 0
 
 
 if __name__ == '__main__':
